@@ -746,6 +746,12 @@ impl Property for P15 {
                 out.push(C15 { cut: Some(cut as u32), src, caller: vec![Decide::Cancel], max_len_mode: 1, ..base(fam, vals2.clone()) });
             }
         }
+        // a frame of exactly the default limit (512 KiB) is a frame like any other
+        for g in [u32::MAX, 65_536, 100_000] {
+            let src = if g == u32::MAX { vec![] } else { vec![Step::Xfer(g); 12] };
+            let vals = vec![ValSpec { ty: Ty::Bytes, size: 3, seed: 7 }, bytes_spec_with_encoding_len(DEFAULT_MAX_LEN), ValSpec { ty: Ty::Bytes, size: 3, seed: 8 }];
+            out.push(C15 { src, ..base(Ty::Bytes, vals) });
+        }
         let mut all: Vec<S15> = out.into_iter().map(S15::Single).collect();
         all.extend(crate::pipe::PipeSc::sweeps().into_iter().map(S15::Pipe));
         all
